@@ -14,6 +14,11 @@ CLAIMS = {
         text="Decides that TEMPO and PT-TEMPO are wired to the same inputs at the same step indices (S1 influence arguments by origin, S2 propagator/step alignment, S3 role-typed plumbing, S4 dkmax/unique provenance). Numerical agreement of the two contractions is not decided.",
         note="Trusted: Python ast; def-use engine; role vocabulary (oqv/roles.py). Partial claim: wiring only.",
         ref="2/C02"),
+    "C04": dict(
+        technique="algebraic shape checks: coefficient/operand form of every Lindblad dissipator, Kronecker-factor convention table of the superoperator builders, factor structure of the influence exponent, return-expression form of normalised read-outs",
+        text="Claims C04 in part: the clauses that hold by construction - trace-annihilating form of every dissipator construction site (D1), one (A (x) B^T) superoperator convention so that commutators annihilate the trace (D2), normalised read-outs (D3), and the factor structure of the influence exponent that gives trace preservation of the last-leg sum and I(s+,s-)* = I(s-,s+) (D4). Each is a necessary condition of unit trace / Hermiticity. Positivity and the numerical size of deviations after SVD truncation are not decided.",
+        note="Trusted: Kronecker/vec convention stated in operators.py; eta.real/eta.imag real. Partial claim: structural necessary conditions only.",
+        ref="2/C04 and 7.2"),
     "C05": dict(
         technique="typestate on matrices (HERMITIAN established -> decomposition must be of the Hermitian family); adjoint-pair operand check",
         text="Decides that the diagonalising transform comes from a solver whose contract gives a unitary transform and real eigenvalues for every Hermitian input (E1), and that forward/backward basis changes are mutual adjoints at every consumer (E2). Numerical covariance of dynamics is not decided.",
@@ -99,7 +104,6 @@ CLAIMS = {
 NOT_APPLICABLE = {
     "C01": "equality of computed density matrices with an analytic solution quantifies over floating-point results of tensor contractions and quadratures; no sound static abstraction in reach bounds them. Its only shape-visible parts are decided under C12 (L1-L3) and C02 (S1).",
     "C03": "exactness of a tensor-network contraction against an independent joint evolution; leg wiring can only be cross-checked between consumers, which cannot see the shared-convention errors the property targets.",
-    "C04": "trace / Hermiticity / positivity up to a truncation tolerance are numerical invariants of SVD-truncated contractions; the one clause true by construction (Gibbs normalisation) is decided under C11 (K2).",
 }
 
 
